@@ -1072,11 +1072,18 @@ def _decided_by_path(l, c) -> Optional[bool]:
             root = str(e[1]).split("[")[0]
             if any(n == root or n.startswith(root + ".") or n.startswith(root + "[") for n in names):
                 return None
+    def same(a, b) -> bool:         # structural identity only: cheap, and all that is needed for a test written twice
+        if type(a) is not type(b):
+            return False
+        if isinstance(a, (sp.Eq, sp.Ne)):
+            return (a.lhs == b.lhs and a.rhs == b.rhs) or (a.lhs == b.rhs and a.rhs == b.lhs)
+        return a == b
     try:
         lits = literals(l)
-        if any(same_rel(x, c) for x in lits):
+        cc, nc = canon_rel(c), canon_rel(negate(c))
+        if any(same(x, cc) for x in lits):
             return True
-        if any(same_rel(x, negate(c)) for x in lits):
+        if any(same(x, nc) for x in lits):
             return False
     except Exception:
         return None
